@@ -358,7 +358,15 @@ class Kernel:
         # O2: alignment for every 4-byte aligned base
         if mn in ALIGNED_MEM and nbytes >= 16:
             self.obligations += 1
-            self.align_sites.setdefault((addr, mn, tag), off)
+            # required alignment = operand width (16 for xmm, 32 for ymm); remember a length that reaches the site
+            if (addr, mn, tag) not in self.align_sites:
+                atlen = self.concrete(st, self.len)
+                if atlen is None:
+                    okm, mm = self.feasible(st.cons, z3.BoolVal(True))
+                    if okm:
+                        # some length that reaches this site; a few more lanes so that the loop really runs
+                        atlen = mm.eval(self.len, model_completion=True).as_long() + 8
+                self.align_sites[(addr, mn, tag)] = (off, nbytes, atlen)
         if off is None or off % 4:
             raise Inconclusive("load offset not unique / not a multiple of 4 at %x" % addr)
         return [self.lane(tag, off // 4 + i) for i in range(nlanes)]
@@ -711,14 +719,15 @@ class Kernel:
             if check_values and n is not None and n <= N3:
                 results.append((n, dict(st.res)))
         # O2: alignment of every aligned-memory instruction that was executed
-        for (addr, mn, tag), off in sorted(self.align_sites.items()):
+        for (addr, mn, tag), (off, nbytes, atlen) in sorted(self.align_sites.items()):
             basev = z3.BitVec("base", 64)
             s = z3.Solver()
-            s.add(basev % 4 == 0, (basev + (off or 0)) % 16 != 0)
+            s.add(basev % 4 == 0, (basev + (off or 0)) % nbytes != 0)
             self.queries += 1
             if s.check() == z3.sat:
                 self.violations.append(dict(kind="misaligned-access", kernel=self.name, insn="+0x%x %s" % (addr - self.insns[0][0], mn), vector=tag,
-                                            base_mod_16=s.model()[basev].as_long() % 16))
+                                            required_alignment=nbytes, len=atlen or 8,
+                                            base_mod_16=s.model()[basev].as_long() % 16, base_mod=s.model()[basev].as_long() % nbytes))
         return results
 
 
@@ -803,10 +812,10 @@ import (
 	"github.com/marekgalovic/anndb/simd/sse"
 )
 
-func verifAligned(n int, mod uintptr) []float32 {
-	buf := make([]float32, n+8)
-	for k := 0; k < 8; k++ {
-		if uintptr(unsafe.Pointer(&buf[k]))%%16 == mod {
+func verifAligned(n int, mod uintptr, align uintptr) []float32 {
+	buf := make([]float32, n+16)
+	for k := 0; k < 16; k++ {
+		if uintptr(unsafe.Pointer(&buf[k]))%%align == mod {
 			return buf[k : k+n : k+n]
 		}
 	}
@@ -818,7 +827,7 @@ func TestVerifC15Replay(t *testing.T) {
 	impl := os.Getenv("VERIF_C15_IMPL")
 	switch kind {
 	case "misaligned":
-		a, b := verifAligned(8, 4), verifAligned(8, 4)
+		a, b := verifAligned(%(n)d, %(mod)d, %(align)d), verifAligned(%(n)d, %(mod)d, %(align)d)
 		for i := range a {
 			a[i], b[i] = float32(i), 1
 		}
@@ -861,7 +870,7 @@ func TestVerifC15Replay(t *testing.T) {
 		if err := json.Unmarshal([]byte(os.Getenv("VERIF_C15_VECTORS")), &spec); err != nil {
 			panic(err)
 		}
-		a, b := verifAligned(len(spec.A), 0), verifAligned(len(spec.B), 0)
+		a, b := verifAligned(len(spec.A), 0, 16), verifAligned(len(spec.B), 0, 16)
 		copy(a, spec.A)
 		copy(b, spec.B)
 		var k, p float32
@@ -894,7 +903,7 @@ func TestVerifC15Replay(t *testing.T) {
 		var k float32
 		if impl == "sse" {
 			if uintptr(unsafe.Pointer(&a[0]))%%16 != 0 || uintptr(unsafe.Pointer(&b[0]))%%16 != 0 {
-				a, b = append(verifAligned(8, 0)[:0], a...), append(verifAligned(8, 0)[:0], b...)
+				a, b = append(verifAligned(8, 0, 16)[:0], a...), append(verifAligned(8, 0, 16)[:0], b...)
 			}
 			k = sse.ManhattanDistance(a, b)
 		} else {
@@ -912,10 +921,10 @@ func TestVerifC15Replay(t *testing.T) {
 '''
 
 
-def native(scratch, kind, impl, fn="EuclideanDistance", n=8, vectors=None):
+def native(scratch, kind, impl, fn="EuclideanDistance", n=8, vectors=None, mod=4, align=16):
     tpath = os.path.join(scratch, "zz_verif_c15_%s_%s_test.go" % (kind.replace("-", "_"), impl))
     with open(tpath, "w") as f:
-        f.write("//go:build verif\n" + REPLAY_GO % dict(fn=fn, n=n))
+        f.write("//go:build verif\n" + REPLAY_GO % dict(fn=fn, n=n, mod=mod, align=align))
     ov = os.path.join(scratch, "ov-%s-%s.json" % (kind, impl))
     with open(ov, "w") as f:
         json.dump({"Replace": {os.path.join(REPO, "index/space/zz_verif_c15_test.go"): tpath}}, f)
@@ -1029,7 +1038,9 @@ def run(pid, tier, seed):
             if v["kind"] == "misaligned-access":
                 impl = v["kernel"].split(".")[0]
                 fn = {"_euclidean_distance_squared": "EuclideanDistance", "_manhattan_distance": "ManhattanDistance", "_cosine_similarity_dot_norm": "CosineDistance"}[v["kernel"].split(".", 1)[1]]
-                r = native(scratch, "misaligned", impl, fn)
+                # the first site per kernel may be a 16-byte one: replay the site with the largest requirement
+                v = max(vs, key=lambda x: (x.get("required_alignment", 16), -(x.get("len") or 8)))
+                r = native(scratch, "misaligned", impl, fn, n=v.get("len") or 8, mod=v.get("base_mod", 4) or 4, align=v.get("required_alignment", 16))
                 ok = r.startswith("CRASH")
             elif v["kind"] == "out-of-bounds-read":
                 impl = v["kernel"].split(".")[0]
